@@ -699,6 +699,18 @@ class FunctionTranslator:
                     self.fail(s, "%r is rebound to a counter" % t.id)
                 self.bind(s, t.id, COUNTER, env)
                 return self.line(ind, "let %s := @nil (Z * Z) in" % t.id, s)
+            if isinstance(v, ast.Call) and isinstance(v.func, ast.Attribute) and v.func.attr == "setdefault" \
+                    and len(v.args) == 2 and not v.keywords and isinstance(v.args[1], ast.Dict) and not v.args[1].keys:
+                # x = P.setdefault(k, {})  is  `if k not in P: P[k] = {}` followed by `x = P[k]`
+                c, tc = self.expr(v.func.value, env)
+                if tc.kind != "kcpath" or len(tc.keys) != 1 or not self.state:
+                    self.fail(s, "setdefault(k, {}) is supported on grammar[ip]['keyspace_cache'] only")
+                key = self.as_int(v.args[0], env)
+                keys = " ".join(_paren(x) for x in tc.keys + [key])
+                x = self.tmp()
+                self.emit("%s <- kc_mem2 kc %s ;;" % (x, keys))
+                self.emit("kc <- (if negb %s then kc <- kc_set2 kc %s [] ;; Ok kc else Ok kc) ;;" % (x, keys))
+                return self.alias(s, t.id, Ty("kcpath", keys=tc.keys + [key]), env, ind)
             text, ty = self.expr(v, env)
             if ty.kind == "kcpath":
                 return self.alias(s, t.id, ty, env, ind)
@@ -885,13 +897,19 @@ class FunctionTranslator:
             binders = [(s.target.id, INT)]
             lst, pattern = "zrange %s %s" % (_paren(bounds[0]), _paren(bounds[1])), s.target.id
         elif isinstance(it, ast.Call) and isinstance(it.func, ast.Name) and it.func.id == "enumerate" \
-                and len(it.args) == 1 and not it.keywords and "enumerate" not in env.types:
+                and len(it.args) in (1, 2) and not it.keywords and "enumerate" not in env.types:
             l, tl = self.expr(it.args[0], env)
             if tl.kind != "lnlist":
                 self.fail(s, "enumerate of a value of type %s" % tl.kind)
             a, b = targets(2)
             binders = [(a, INT), (b, LINFO)]
             lst, pattern = "zenumerate (%s)" % l, "'(%s, %s)" % (a, b)
+            if len(it.args) == 2:
+                # enumerate(l, c) counts from the int constant c: the index of enumerate(l) plus c
+                c = it.args[1]
+                if not (isinstance(c, ast.Constant) and type(c.value) is int):
+                    self.fail(s, "enumerate with a start that is not an int constant")
+                lets = ["let %s := (%s + %s)%%Z in" % (a, a, _paren(self.zconst(c.value)))]
         elif isinstance(it, ast.Call) and isinstance(it.func, ast.Attribute) and it.func.attr == "items" \
                 and not it.args and not it.keywords:
             l, tl = self.expr(it.func.value, env)
@@ -905,6 +923,13 @@ class FunctionTranslator:
                 lets = ["let %s := te_key %s in" % (a, b)]
             else:
                 self.fail(s, ".items() of a value of type %s" % tl.kind)
+        elif isinstance(it, ast.Call) and isinstance(it.func, ast.Attribute) and it.func.attr == "values" \
+                and not it.args and not it.keywords:
+            l, tl = self.expr(it.func.value, env)
+            if tl.kind != "next" or not isinstance(s.target, ast.Name):
+                self.fail(s, ".values() is supported on a next_letter dict with one plain target")
+            binders = [(s.target.id, LINFO)]
+            lst, pattern = l, "'(_, %s)" % s.target.id
         else:
             self.fail(s, "unsupported loop")
         for n, ty in binders:
